@@ -1,6 +1,7 @@
 import VyxalModel.Model.Show
 import VyxalModel.Model.Encoding
 import VyxalModel.Model.Number
+import VyxalModel.Model.Strings
 import VyxalModel.Gen.Codepage
 /-! Line protocol: `cmd<TAB>argument`; one answer line per request. -/
 open Vy
@@ -24,6 +25,9 @@ def answer (cmd arg : String) : String :=
   | "decval" => (match decimalValue (parseCps arg) with
       | some (n, k) => s!"{n} {k}"
       | none => "ERR")
+  | "quotify" => showOptCps (some (quotify (parseCps arg)))
+  | "escstr" => showOptCps (some (escapeString (parseCps arg)))
+  | "pybody" => showOptCps (pyStringBody (parseCps arg))
   | _ => "BADCMD"
 
 partial def loop (h : IO.FS.Stream) (out : IO.FS.Stream) : IO Unit := do
